@@ -52,6 +52,9 @@ def write_evidence(prop, mod, tier, seed, merged, wall, violations, extra):
     }
     if extra.get("inconclusive"):
         ev["coverage"]["inconclusive"] = extra["inconclusive"]
+    if extra.get("fuzz"):
+        ev["coverage"]["fuzz"] = extra["fuzz"]
+        ev["coverage"]["evaluations"] += sum(v["executions"] for v in extra["fuzz"].values())
     evdir = os.environ.get("VERIF_EVIDENCE_DIR") or os.path.join(ROOT, "evidence")
     os.makedirs(evdir, exist_ok=True)
     with open(os.path.join(evdir, f"{prop}.json"), "w") as f:
@@ -160,6 +163,25 @@ def main():
             if res["inconclusive"]:
                 inconclusive.append(f"{res['check']}[{res['worker']}]: {res['inconclusive']}")
 
+    # 3. coverage-guided campaigns (thorough tier, byte-level domains)
+    fuzz_stats = None
+    if tier == "thorough" and getattr(mod, "FUZZ", None):
+        import subprocess as _sp
+        from . import fuzz as _fuzz
+        if not os.environ.get("VERIF_SKIP_BUILD") and _sp.run([os.path.join(ROOT, "scripts", "build.sh"), "fuzz"]).returncode != 0:
+            inconclusive.append("fuzz targets failed to build")
+        else:
+            fuzz_stats, crashes, inc = _fuzz.run_campaigns(prop, mod.FUZZ, seed)
+            inconclusive += inc
+            for target, data, tail in crashes:
+                case = {"target": target, "hex": data.hex()}
+                # decide through the engine (same oracle, no libFuzzer): known findings are matched by signature there
+                try:
+                    core.run_case(next(c for c in mod.CHECKS if c.name == "fuzz_oracle_replay"), case, core.Stats(), open_findings)
+                    inconclusive.append(f"fuzz crash of {target} does not reproduce through the engine oracle: {data[:80]!r}")
+                except core.Violation as v:
+                    violations.append({"check": "fuzz_oracle_replay", "case": case, "signature": v.signature, "message": v.message + " [found by libFuzzer]"})
+
     # report
     known_lines = []
     for key, n in sorted(known_seen.items()):
@@ -193,7 +215,7 @@ def main():
         rc = 1
     wall = time.time() - t0
     write_evidence(prop, mod, tier, seed, merged, wall, len(violations),
-                   {"workers": nworkers, "replayed": replayed, "known_lines": known_lines, "inconclusive": inconclusive})
+                   {"workers": nworkers, "replayed": replayed, "known_lines": known_lines, "inconclusive": inconclusive, "fuzz": fuzz_stats})
     total = sum(m["evaluations"] for m in merged.values())
     nt = sum(len(m["nontrivial"]) for m in merged.values())
     print(f"{prop} {tier}: {total} cases, {nt} distinct non-trivial, {len(violations)} violation(s), "
